@@ -335,6 +335,7 @@ def make_case(cls, isa, arch, r, pools):
 class _Capture:
     installed = False
     last = {}
+    dict_first = False
 
 
 def _install():
@@ -350,6 +351,13 @@ def _install():
         _Capture.last["graph"] = kernel_dg
         _Capture.last["fa_kwargs"] = dict(kw)
         _Capture.last["n_full_analysis"] = _Capture.last.get("n_full_analysis", 0) + 1
+        if _Capture.dict_first:
+            # a library user may ask for the dict before (or without) the text report: taken here from the fresh graph and
+            # compared later with the dict the CLI itself writes
+            try:
+                _Capture.last["dict_first"] = orig_fad(self, kernel, kernel_dg, **{k: v for k, v in kw.items() if k in ("arch_warning", "length_warning", "lcd_warning")})
+            except Exception as e:  # noqa - judged where the case is judged
+                _Capture.last["dict_first_exc"] = e
         return orig_fa(self, kernel, kernel_dg, *a, **kw)
 
     def full_analysis_dict(self, kernel, kernel_dg, *a, **kw):
@@ -667,26 +675,26 @@ def judge(case, text, d, deps, R, file_text, from_yaml=False):
     return J.n, rep, nonblank_cells + len(xrows)
 
 
-def compare_dicts(d, y, J):
+def compare_dicts(d, y, J, tag="yaml"):
     """The --yaml-out file, loaded back, must carry the numbers of the dict that was rendered."""
     try:
         if len(d["Kernel"]) != len(y["Kernel"]):
-            J.bad("yaml/kernel-length", "dict %d, file %d" % (len(d["Kernel"]), len(y["Kernel"])))
+            J.bad(tag + "/kernel-length", "dict %d, file %d" % (len(d["Kernel"]), len(y["Kernel"])))
             return
         for a, b in zip(d["Kernel"], y["Kernel"]):
             for f in ("LineNumber", "Latency", "LatencyCP", "LatencyLCD", "Throughput", "LatencyWithoutLoad", "Line"):
                 if a[f] != b[f]:
-                    J.bad("yaml/field-differs", "line %s field %s: dict %r, file %r" % (a["LineNumber"], f, a[f], b[f]))
+                    J.bad(tag + "/field-differs", "line %s field %s: dict %r, file %r" % (a["LineNumber"], f, a[f], b[f]))
             if dict(a["PortPressure"]) != dict(b["PortPressure"]) or list(a["Flags"]) != list(b["Flags"]):
-                J.bad("yaml/field-differs", "line %s PortPressure/Flags differ" % a["LineNumber"])
+                J.bad(tag + "/field-differs", "line %s PortPressure/Flags differ" % a["LineNumber"])
         if dict(d["Summary"]["PortPressure"]) != dict(y["Summary"]["PortPressure"]) or any(
             d["Summary"][f] != y["Summary"][f] for f in ("CriticalPath", "LCD")
         ):
-            J.bad("yaml/summary-differs", "dict %r, file %r" % (d["Summary"], y["Summary"]))
+            J.bad(tag + "/summary-differs", "dict %r, file %r" % (d["Summary"], y["Summary"]))
         if list(d["Warnings"]) != list(y["Warnings"]) or list(d["Target"]["Ports"]) != list(y["Target"]["Ports"]):
-            J.bad("yaml/warnings-or-target-differ", "dict %r/%r" % (d["Warnings"], y["Warnings"]))
+            J.bad(tag + "/warnings-or-target-differ", "dict %r/%r" % (d["Warnings"], y["Warnings"]))
     except KeyError as e:
-        J.bad("yaml/key-missing", "key %s missing in the loaded file" % e)
+        J.bad(tag + "/key-missing", "key %s missing in the loaded file" % e)
 
 
 # ------------------------------------------------------------------------------------------------ execution
@@ -713,6 +721,7 @@ def execute(case, R, workdir, mode="inproc", load=False):
     try:
         if mode == "inproc":
             try:
+                _Capture.dict_first = int(ident[:2], 16) % 2 == 0
                 with time_limit(120):
                     text, d, deps, timed_out = run_inprocess(case, path, yaml_path)
             except CaseTimeout:
@@ -749,6 +758,15 @@ def execute(case, R, workdir, mode="inproc", load=False):
             R.count("monitor:yaml_loaded")
         res = judge(case, text, d, deps, R, file_text)
         n, nt = res[0], res[2]
+        if mode == "inproc" and _Capture.dict_first:
+            R.count("dict_taken_before_the_text_report")
+            if "dict_first_exc" in _Capture.last:
+                R.exception(_Capture.last["dict_first_exc"], dict(case), prefix="dict-before-text/")
+                n += 1
+            elif _Capture.last.get("dict_first") is not None:
+                J0 = Judge(case, R)
+                compare_dicts(_Capture.last["dict_first"], d, J0, tag="dict-before-text")
+                n += J0.n
         if mode == "inproc" and load:
             J = Judge(case, R)
             y = load_yaml(yaml_path)
@@ -827,6 +845,7 @@ def floors(tier):
         f["class:" + c] = (2 if c in LEN_CLASSES else 3) if q else 60
     f["class:partial"] = 10 if q else 150
     f["class:widecol"] = 3 if q else 60
+    f["dict_taken_before_the_text_report"] = 80 if q else 1500
     f["thirds_next_to_wide_cell"] = 3 if q else 60
     f["partial_tp_unknown_lt_known_lines"] = 8 if q else 120
     return f
